@@ -14,6 +14,8 @@ pub enum Ev {
     /// select as user bob
     UseDbUser { s: usize, db: usize },
     UseDbWrong { s: usize, db: usize },
+    /// the three-argument user form with a wrong user token (fails)
+    UseDbUserWrong { s: usize, db: usize },
     /// a refused command (secure key / no selection)
     Refused { s: usize },
     /// an ordinary accepted command
@@ -33,6 +35,7 @@ fn ev_strategy() -> impl Strategy<Value = Ev> {
         5 => (s.clone(), db.clone()).prop_map(|(s, db)| Ev::UseDb { s, db }),
         2 => (s.clone(), db.clone()).prop_map(|(s, db)| Ev::UseDbUser { s, db }),
         2 => (s.clone(), db.clone()).prop_map(|(s, db)| Ev::UseDbWrong { s, db }),
+        2 => (s.clone(), db.clone()).prop_map(|(s, db)| Ev::UseDbUserWrong { s, db }),
         1 => s.clone().prop_map(|s| Ev::Refused { s }),
         1 => s.clone().prop_map(|s| Ev::Work { s }),
         4 => s.clone().prop_map(|s| Ev::Disconnect { s }),
@@ -96,9 +99,10 @@ pub fn run_case(ctx: &Ctx, case: &Case) -> Outcome {
                     nontrivial = true;
                 }
             }
-            Ev::UseDbWrong { s, db } => {
-                kind = "failed-select";
-                let (r, _) = sessions[*s].send(&node, &format!("use-db {} nope", DBS[*db]));
+            Ev::UseDbWrong { s, db } | Ev::UseDbUserWrong { s, db } => {
+                kind = if let Ev::UseDbWrong { .. } = ev { "failed-select" } else { "failed-user-select" };
+                let line = if let Ev::UseDbWrong { .. } = ev { format!("use-db {} nope", DBS[*db]) } else { format!("use-db {} bob not-bobs-token", DBS[*db]) };
+                let (r, _) = sessions[*s].send(&node, &line);
                 if !is_refusal(&r) {
                     fail = Some(("C17|wrong-token-accepted".into(), format!("step {} {:?}", i, ev)));
                     break;
@@ -176,6 +180,7 @@ fn alphabet() -> Vec<Ev> {
             v.push(Ev::UseDb { s, db });
         }
         v.push(Ev::UseDbWrong { s, db: 0 });
+        v.push(Ev::UseDbUserWrong { s, db: 1 });
         v.push(Ev::Disconnect { s });
     }
     v.push(Ev::UseDbUser { s: 0, db: 0 });
